@@ -43,13 +43,17 @@ def world(name):
         # the output folder holds a COMPLETE earlier run made with other options and --keep_tmp (its saved assignments and lock files are
         # there); the run that is interrupted and resumed is a fresh start (--force) with default options in that folder
         extra = ["STALE"]
+    if name == "w11":
+        # the stale-folder world with a gzipped reference (unpacked into the output folder by the run): the earlier run worked on
+        # another assembly whose file has the same name
+        extra = ["STALE", "ALTREF", "--check_canonical"]
     return w, extra
 
 
 def build_template(name, d):
     from vlib import syn
     w, extra = world(name)
-    paths = syn.materialise(w, d, gz_ref=(name == "w4"))
+    paths = syn.materialise(w, d, gz_ref=(name in ("w4", "w11")))
     if "file:TABLE" in extra:
         tbl = os.path.join(d, "groups.tsv")
         with open(tbl, "w") as f:
@@ -87,6 +91,13 @@ def build_template(name, d):
         os.makedirs(os.path.join(d, "alt"), exist_ok=True)
         w_alt = dict(w, genes=[dict(g, transcripts=g["transcripts"][:1]) for g in w["genes"]])
         syn.write_gtf(w_alt, os.path.join(d, "alt", "annot.gtf"))
+    if "ALTREF" in extra:
+        # the other assembly: same sequence names and lengths, no splice-site dinucleotides anywhere (A -> C, T -> G)
+        import gzip
+        os.makedirs(os.path.join(d, "alt"), exist_ok=True)
+        with gzip.open(os.path.join(d, "ref.fa.gz"), "rt") as fi, gzip.open(os.path.join(d, "alt", "ref.fa.gz"), "wt") as fo:
+            for line in fi:
+                fo.write(line if line.startswith(">") else line.replace("A", "C").replace("T", "G").replace("a", "c").replace("t", "g"))
     if "GZ_GTF" in extra:
         import gzip
         with open(os.path.join(d, "annot.gtf"), "rb") as fi, gzip.open(os.path.join(d, "annot.gtf.gz"), "wb") as fo:
@@ -102,7 +113,7 @@ def fresh_copy(template, dest):
 def argv_for(d, extra, threads=1):
     ref = os.path.join(d, "ref.fa.gz") if os.path.exists(os.path.join(d, "ref.fa.gz")) else os.path.join(d, "ref.fa")
     extra = [x.replace("TEMPLATE_DIR", d) for x in extra]
-    flags = set(x for x in extra if x in ("NO_GENEDB", "YAML2", "GZ_GTF", "STALE"))
+    flags = set(x for x in extra if x in ("NO_GENEDB", "YAML2", "GZ_GTF", "STALE", "ALTREF"))
     extra = [x for x in extra if x not in flags]
     inp = ["--yaml", os.path.join(d, "in.yaml")] if "YAML2" in flags else ["--bam", os.path.join(d, "reads.bam")]
     if "NO_GENEDB" in flags:
@@ -120,6 +131,8 @@ def earlier_argv(d, extra):
     a = argv_for(d, [x for x in extra if x != "STALE"] + ["--keep_tmp", "--transcript_quantification", "all", "--gene_quantification", "all",
                                                           "--read_group", "read_id:_"])
     sub = {os.path.join(d, "reads.bam"): os.path.join(d, "reads_a.bam"), os.path.join(d, "annot.gtf"): os.path.join(d, "alt", "annot.gtf")}
+    if "ALTREF" in extra:
+        sub[os.path.join(d, "ref.fa.gz")] = os.path.join(d, "alt", "ref.fa.gz")
     return [sub.get(x, x) for x in a]
 
 
@@ -370,7 +383,7 @@ def signature(status, detail):
 
 def run(ctx):
     quick = ctx.tier == "quick"
-    worlds_ = ["w1", "w2", "w3", "w7", "w10"] if quick else ["w1", "w2", "w3", "w4", "w5", "w6", "w7", "w8", "w9", "w10"]
+    worlds_ = ["w1", "w2", "w3", "w7", "w10", "w11"] if quick else ["w1", "w2", "w3", "w4", "w5", "w6", "w7", "w8", "w9", "w10", "w11"]
     if os.environ.get("VERIF_C07_WORLDS"):
         worlds_ = os.environ["VERIF_C07_WORLDS"].split(",")      # development aid: restrict the worlds
     total = 0
@@ -395,7 +408,7 @@ def run(ctx):
                     continue        # quick tier: the --keep_tmp world only in the phases where keeping intermediate files matters
                 if quick and wname == "w7" and (variant == "before" or i % 6):
                     continue        # quick tier: the two-experiment world at every sixth mutation point
-                if wname == "w10" and (variant == "before" or (quick and i > 16)):
+                if wname in ("w10", "w11") and (variant == "before" or (quick and i > 16)):
                     continue        # the stale-folder world: the window is the start of the run (until the old state is cleaned)
                 jobs.append((wname, [(i, variant)], None, ctx.scratch, wid, t0, chroms))
                 wid += 1
